@@ -23,7 +23,7 @@ LEVEL = "exploration"
 RULE = ("scenario = (supported list, preferred, api) x server answer kind x answer instant around the timeout x 0..3 distractors "
         "x optional duplicate answer; non-trivial = the answer was not simply 'proposed version, immediately' (mismatch, counter-proposal, "
         "malformed, error, silence, boundary timing, distractor or duplicate)")
-PROBES = ["answer_exactly_at_timeout", "counter_proposal_accepted", "mismatch_rejected", "malformed_answer", "error_answer",
+PROBES = ["through_real_stdio_client", "answer_exactly_at_timeout", "counter_proposal_accepted", "mismatch_rejected", "malformed_answer", "error_answer",
           "silence", "duplicate_answer", "preferred_not_in_list", "invented_version_accepted"]
 TIERS = {"quick": {"runs": 30000, "wall": 45.0}, "thorough": {"runs": 3000000, "wall": 560.0}}
 ASSUMPTIONS = [
@@ -80,7 +80,7 @@ def generate(rng: random.Random, tier: str) -> dict:
     dup = None
     if rng.random() < 0.25 and kind != "silence":
         dup = {"dt": rng.choice([0, 0, 1, 5, 100]), "kind": rng.choice(["proposed", "unsupported", "other_supported"]), "pick": rng.randrange(0, 8)}
-    return {"v": 1, "api": rng.choice(["send_initialize", "tracking", "tracking"]), "supported": supported, "preferred": preferred,
+    return {"v": 1, "api": rng.choice(["send_initialize", "tracking", "tracking", "stdio"]), "supported": supported, "preferred": preferred,
             "timeout": timeout, "uuid_seed": rng.getrandbits(40), "mode": rng.choice(["parse_message", "model_validate"]),
             "pre_version": rng.choice([None, None, "2025-06-18", "2024-11-05"]),
             "answer": ans, "dup": dup, "events": events}
@@ -112,6 +112,168 @@ def _date_lt_cutoff(v: str) -> bool:
 
 
 def execute(scn: dict) -> dict:
+    if scn["api"] == "stdio":
+        return _execute_stdio(scn)
+    return _execute_raw(scn)
+
+
+def _execute_stdio(scn: dict) -> dict:
+    """The same handshake through the real stdio_client_with_initialize on a FakeProcess: the wire is the child's
+    stdin/stdout, and the tracked client's batching mode is observed behaviourally (a batch sent after the handshake)."""
+    import json
+    stdio = importlib.import_module("chuk_mcp.transports.stdio.stdio_client")
+    from chuk_mcp.transports.stdio.parameters import StdioParameters
+    from chuk_mcp.protocol.types.errors import VersionMismatchError
+    from sim.fakes.process import ProcessFactory
+
+    fu = FakeUUID(scn["uuid_seed"])
+    supported, preferred, timeout = scn["supported"], scn["preferred"], scn["timeout"]
+    proposed = preferred if (preferred and preferred in supported) else supported[0]
+    ans = scn["answer"]
+    st = {"read": []}
+
+    def version_for(kind, pick):
+        if kind == "proposed":
+            return proposed
+        others = [v for v in supported if v != proposed] or [proposed]
+        return others[pick % len(others)]
+
+    async def main(sim):
+        def responder(line: bytes):
+            try:
+                o = json.loads(line)
+            except Exception:
+                return []
+            if not (isinstance(o, dict) and o.get("method") == "initialize" and "id" in o):
+                return []
+            st["init_seen"] = o
+            k = ans["kind"]
+            base = {"capabilities": {}, "serverInfo": {"name": "sim", "version": "1"}}
+            if k in ("proposed", "other_supported"):
+                res = {"jsonrpc": "2.0", "id": o["id"], "result": dict(base, protocolVersion=version_for(k, ans.get("pick", 0)))}
+            elif k in ("unsupported", "wellformed_unknown", "nonstring_version"):
+                res = {"jsonrpc": "2.0", "id": o["id"], "result": dict(base, protocolVersion=ans["version"])}
+            elif k == "error":
+                res = {"jsonrpc": "2.0", "id": o["id"], "error": {"code": ans["code"], "message": ans["text"]}}
+            elif k == "silence":
+                return []
+            else:  # the malformed-result classes
+                res = {"jsonrpc": "2.0", "id": o["id"], "result": {"capabilities": {}}}
+            st["answer"] = res
+            st["answer_t"] = sim.now() + ticks(ans["t"])
+            return [(ticks(ans["t"]), [json.dumps(res).encode() + b"\n"])]
+
+        factory = ProcessFactory(sim, lambda idx, argv, env: {"read_mode": "eager", "responder": responder, "term_latency": ticks(1)})
+        st["factory"] = factory
+        with patched((anyio, "open_process", factory), (_uuid, "uuid4", fu)):
+            st["t_call"] = sim.now()
+            try:
+                async with stdio.stdio_client_with_initialize(StdioParameters(command="sim-child", args=[]), timeout=timeout,
+                                                              supported_versions=list(supported), preferred_version=preferred) as (r, w, res):
+                    st["outcome"] = ("return", res)
+                    st["t_done"] = sim.now()
+                    child = factory.children[0]
+                    st["lines_at_return"] = len(child.lines_in)
+                    # behavioural probe of the tracked batching mode
+                    child.write_stdout([json.dumps([{"jsonrpc": "2.0", "method": "notifications/message", "params": {"data": "in-batch"}}]).encode() + b"\n"])
+                    with anyio.move_on_after(0.5):
+                        while True:
+                            st["read"].append(await r.receive())
+            except BaseException as e:  # noqa
+                if "outcome" not in st:
+                    st["outcome"] = ("raise", e)
+                    st["t_done"] = sim.now()
+                else:
+                    st["exit_exc"] = e
+            await anyio.sleep(3.0)
+
+    info = run_sim(main, max_steps=100_000, max_vtime=200.0)
+    sim = info.sim
+    out = {"violations": [], "digest": sim.digest(), "isig": sim.isig() + ":stdio", "faults": dict(sim.faults),
+           "probes": dict(sim.probes), "vtime": info.vtime, "steps": info.steps, "harness": list(sim.harness_errors),
+           "nontrivial": True, "history": None}
+    if info.deadlock or info.limit or info.exc is not None or "outcome" not in st:
+        out["harness"].append(f"run did not complete: deadlock={info.deadlock} limit={info.limit} exc={info.exc!r}")
+        return out
+
+    def V(cls, sig, msg):
+        out["violations"].append({"cls": f"C03/{cls}", "sig": f"C03/{cls}:{sig}", "msg": msg})
+
+    def probe(k):
+        out["probes"][k] = out["probes"].get(k, 0) + 1
+
+    probe("through_real_stdio_client")
+    child = st["factory"].children[0] if st["factory"].children else None
+    lines = []
+    for raw in (child.lines_in if child else []):
+        try:
+            lines.append(json.loads(raw))
+        except Exception:
+            lines.append({"<unparsable>": True})
+    kind, val = st["outcome"]
+    inits = [l for l in lines if l.get("method") == "initialize"]
+    inited = [l for l in lines if l.get("method") == "notifications/initialized"]
+    if not lines or lines[0].get("method") != "initialize" or len(inits) != 1:
+        V("first-write", "not-initialize", f"child's stdin saw {[l.get('method') for l in lines]}")
+    elif (inits[0].get("params") or {}).get("protocolVersion") != proposed:
+        V("proposed-version", "wrong", f"proposed {(inits[0].get('params') or {}).get('protocolVersion')!r}, expected {proposed!r}")
+    deadline = st["t_call"] + timeout
+    a = st.get("answer")
+    answered_in_time = a is not None and st["answer_t"] < deadline
+    at_edge = a is not None and st["answer_t"] == deadline
+    if a is None or not (answered_in_time or at_edge):
+        verdicts = [("silence",)]
+    else:
+        r_ = a.get("result") if "result" in a else None
+        if "error" in a:
+            vd = ("error",)
+        elif not isinstance(r_.get("protocolVersion"), str) or "serverInfo" not in r_:
+            vd = ("malformed",)
+        else:
+            vd = ("success", r_["protocolVersion"]) if r_["protocolVersion"] in supported else ("mismatch", r_["protocolVersion"])
+        verdicts = [vd] + ([("silence",)] if at_edge else [])
+
+    def ok(vd):
+        if vd[0] == "success":
+            return kind == "return" and str(getattr(val, "protocolVersion", None)) == vd[1]
+        if vd[0] == "mismatch":
+            return kind == "raise" and isinstance(val, VersionMismatchError)
+        if vd[0] == "silence":
+            return kind == "raise" and isinstance(val, TimeoutError)
+        return kind == "raise" and isinstance(val, Exception)
+
+    match = next((vd for vd in verdicts if ok(vd)), None)
+    desc = f"{kind}:{type(val).__name__}:{str(getattr(val, 'protocolVersion', val))[:80]}"
+    if match is None:
+        if kind == "return":
+            V("accepted", verdicts[0][0], f"stdio_client_with_initialize yielded {desc} although the server's answer was {verdicts[0]!r} (supported={supported})")
+        else:
+            V("outcome", f"{verdicts[0][0]}->{type(val).__name__}", f"stdio_client_with_initialize ended with {desc}; expected per {verdicts!r}")
+        match = verdicts[0]
+    if kind == "return":
+        if len(inited) != 1:
+            V("initialized", f"count={len(inited)}:on-success", f"{len(inited)} initialized notifications on the child's stdin after a successful handshake")
+        v = str(val.protocolVersion)
+        if WELL.match(v):
+            batching = _date_lt_cutoff(v)
+            got_member = any(getattr(m, "method", None) == "notifications/message" for m in st["read"])
+            rejected = any(isinstance(l.get("error"), dict) and l["error"].get("code") == -32600 for l in lines)
+            if batching and (not got_member or rejected):
+                V("tracking", "batching-mode", f"negotiated {v} (batching version) but a batch sent afterwards was {'rejected' if rejected else 'not delivered'}")
+            if (not batching) and (got_member or not rejected):
+                V("tracking", "batching-mode", f"negotiated {v} (no batching) but a batch sent afterwards was {'delivered' if got_member else 'not answered with -32600'}")
+    else:
+        if inited:
+            V("initialized", f"sent-after-{match[0]}", f"initialized notification reached the child although initialization failed ({desc})")
+    if child is not None and child.alive:
+        V("cleanup", "child-left-running", "the child is still running 3 s after stdio_client_with_initialize was left")
+    out["faults"]["answer:" + ans["kind"]] = 1
+    out["history"] = {"api": "stdio", "supported": supported, "preferred": preferred, "proposed": proposed, "answer": st.get("answer"),
+                      "stdin_methods": [l.get("method", "response/error") for l in lines], "outcome": desc, "verdicts": repr(verdicts)}
+    return out
+
+
+def _execute_raw(scn: dict) -> dict:
     ini = importlib.import_module("chuk_mcp.protocol.messages.initialize.send_messages")
     from chuk_mcp.protocol.types.errors import VersionMismatchError
     from chuk_mcp.transports.stdio.stdio_client import StdioClient
